@@ -20,6 +20,7 @@ ASSUMPTIONS = [
     "stdlib TLS backend: the handshake timeout is asyncio.sslproto's own (60 s default) and is only observed live in the thorough tier; the PyOpenSSL backend's handshake timer is nauyaca's and is covered by family pumpstall",
 ]
 
+BIG = [(b"titan://h/big;size=100000\r\n" + b"z" * 300, None), (b"titan://h/big;size=5000000;mime=text/plain\r\n" + b"z" * 50, None)]
 REQS = [  # (request bytes, number of bytes that make the request complete)
     (b"gemini://h/\r\n", 13), (b"gemini://h/some/longer/path?query=1\r\n", None), (b"titan://h/f;size=5\r\nhello", None),
     (b"titan://h/f;size=0\r\n", None), (b"titan://h/f;size=3;mime=text/plain;token=t\r\nabcTRAIL", None), (b"http://h/\r\n", None),
@@ -46,6 +47,9 @@ class Stall(ConnFamily):
     def gen(self, rng: random.Random, n: int):
         # exhaustive part: every offset of every request, exact boundary ticks
         cases = []
+        for req, _ in BIG:   # a large declared upload, part of the body, then silence
+            for k in (len(req), len(req) - 10, req.find(b"\r\n") + 2):
+                cases.append({"mw": False, "up": True, "handler": ["a"], "evs": [["d", req[:k].hex()], ["tick", 239], ["tick", 1], ["tick", 2000]], "req": req.hex(), "need": need_of(req)})
         for req, _ in REQS:
             need = need_of(req)
             for k in range(0, len(req) + 1):
@@ -58,9 +62,10 @@ class Stall(ConnFamily):
                     else:
                         evs += [["tick", 100], ["d", (req[k:k + 1]).hex() or "00"], ["tick", 139], ["tick", 1], ["tick", 500]]  # trickle: never re-armed
                     cases.append({"mw": False, "up": True, "handler": ["a"], "evs": evs, "req": req.hex(), "need": need})
-        for c in cases[:n]:
+        mine = list(self.share(cases))
+        for c in mine:
             yield c
-        for _ in range(max(0, n - len(cases))):
+        for _ in range(max(0, n - len(mine))):
             req, _ = rng.choice(REQS)
             need = need_of(req)
             mw = rng.random() < 0.4
